@@ -108,6 +108,13 @@ func x2Configs(prop, tier string) []*X2Config {
 			res = append(res, &X2Config{Name: prop + "/reload-append-to-replace+conc+delay", Cfgs: []PipeCfg{a, b}, Depth: depth(7, 8), Cancel: prop != "C05", Reload: true, Symmetry: true, AdvSteps: adv, Drain: prop != "C05",
 				Props: map[string]bool{"C01": prop == "C01", "C02": prop == "C01", "C03": prop == "C03", "C05": prop == "C05", "C06": prop == "C06"}})
 		}
+		if prop == "C01" {
+			// a reload that removes the pipeline and a later one that brings it back, with saves in between
+			with := mkDefs(map[string]PipeCfg{"p": {Conc: 1, QL: -1, Graph: graphOne}, "z": {Conc: 1, QL: -1, Graph: graphOne}})
+			without := mkDefs(map[string]PipeCfg{"z": {Conc: 1, QL: -1, Graph: graphOne}})
+			res = append(res, &X2Config{Name: "C01/pipeline-removed-and-readded", DefsOverride: []*definitionPipelinesDef{with, without}, Pipes: []string{"p"},
+				Depth: depth(6, 7), Cancel: true, Reload: true, Save: true, Symmetry: false, Drain: true, Props: props("C01", "C02")})
+		}
 		if prop == "C03" {
 			// reload alphabets
 			base := PipeCfg{Conc: 1, QL: -1, Graph: graphOne}
